@@ -99,6 +99,22 @@ Definition clampn (img : list Z) (n : Z) : nat := Z.to_nat (Z.min n (zlen img + 
 Definition word_at (le : bool) (bs : list Z) (i : nat) : Z := int_decode le (firstn 4 (skipn (4 * i) bs)).
 Definition decode_counted (L : layout) (le : bool) (counts : list nat) (bs : list Z) :=
   if forallb (fun i => word_at le bs i <=? zlen bs) counts then decode_layout L bs else None.
+(* the same with words of wb bytes *)
+Definition word_at_w (wb : nat) (le : bool) (bs : list Z) (i : nat) : Z :=
+  int_decode le (firstn wb (skipn (wb * i) bs)).
+Definition decode_counted_w (wb : nat) (L : layout) (le : bool) (counts : list nat) (bs : list Z) :=
+  if forallb (fun i => word_at_w wb le bs i <=? zlen bs) counts then decode_layout L bs else None.
+
+(* SysV hash table entries are 32-bit words (gABI), except in the 64-bit Alpha and s390x psABIs,
+   which define them as 64-bit (binutils: hash entry size 8 for ELFCLASS64 EM_ALPHA / EM_S390) *)
+Definition EM_S390 := 22.     Definition EM_ALPHA := 41.
+Definition spec_hash_wide (machine : Z) (is64 : bool) : bool :=
+  is64 && ((machine =? EM_ALPHA) || (machine =? EM_S390)).
+Definition spec_Elf_Hash_w (le wide : bool) : layout :=
+  if wide then [ ("nbuckets", KU le 8); ("nchains", KU le 8);
+                 ("buckets", KArr (CField "nbuckets") le 8); ("chains", KArr (CField "nchains") le 8) ]%string
+  else spec_Elf_Hash le.
+Definition hash_wb (wide : bool) : nat := if wide then 8%nat else 4%nat.
 
 (* n records of layout L at off, off+stride, ... *)
 Fixpoint read_recs (L : layout) (img : list Z) (off stride : Z) (n : nat)
@@ -217,8 +233,8 @@ Definition addr_to_off (ps : list phdr) (addr len : Z) : option Z :=
 
 (* ---------- hash tables ---------- *)
 (* SysV: "the number of symbol table entries should equal nchain" *)
-Definition sysv_valid (bs : list Z) (N : Z) : bool :=
-  match decode_counted (spec_Elf_Hash le) le [0; 1]%nat bs with
+Definition sysv_valid (wide : bool) (bs : list Z) (N : Z) : bool :=
+  match decode_counted_w (hash_wb wide) (spec_Elf_Hash_w le wide) le [0; 1]%nat bs with
   | Some (r, _) => rec_z r "nchains" =? N
   | None => false
   end.
@@ -386,7 +402,7 @@ Definition hash_ok (d : dyninfo) (img : list Z) (N : Z) : bool :=
       match first_val DT_HASH es with
       | Some hp =>
           match ptr_ok is64 img ps hp 8 with
-          | Some off => sysv_valid (di_le d) (seekz img off) N
+          | Some off => sysv_valid (di_le d) (spec_hash_wide (e_machine (di_eh d)) is64) (seekz img off) N
           | None => false
           end
       | None => false
